@@ -10,7 +10,7 @@ use std::collections::BTreeMap;
 const HANDLES: [&str; 4] = ["!", "!!", "!e!", "!f!"];
 const PREFIXES: [&str; 3] = ["!loc-", "tag:x.org,2000:", "tag:y/"];
 /// (spelling, handle, decoded suffix, verbatim)
-const SPELLINGS: [(&str, &str, &str, bool); 12] = [
+const SPELLINGS: [(&str, &str, &str, bool); 15] = [
     ("", "", "", false),
     ("!", "", "", false), // the non-specific tag
     ("!a", "!", "a", false),
@@ -20,6 +20,10 @@ const SPELLINGS: [(&str, &str, &str, bool); 12] = [
     ("!e!a%21b", "!e!", "a!b", false),
     ("!e!%C3%A9", "!e!", "é", false),
     ("!!%E4%B8%ADx", "!!", "中x", false),
+    // word characters followed by other tag characters / an escape, under the secondary and a named handle
+    ("!!a.b%2Fc", "!!", "a.b/c", false),
+    ("!!st%72", "!!", "str", false),
+    ("!e!p/q.r-s", "!e!", "p/q.r-s", false),
     ("!<tag:v>", "", "tag:v", true),
     ("!<!v>", "", "!v", true),
     ("!<tag:%C3%A9>", "", "tag:é", true),
@@ -250,7 +254,7 @@ pub fn replay(case: &Value) -> Result<Acc, String> {
 
 pub fn check(tier: Tier) -> i32 {
     let mut rep = Report::new("C16", tier, "model_checking");
-    rep.rule = "abstract values: documents = (sequence of 0-3 %TAG directives over handles {!, !!, !e!, !f!} x prefixes {!loc-, tag:x.org,2000:, tag:y/}, optional %YAML 1.2 at any position among them, one of 12 tag spellings (none, '!', local, secondary, named handles, percent-encoded suffixes incl. multi-byte UTF-8, verbatim tags) on a scalar / block sequence / flow mapping); streams of 1, 2 and (thorough) 3 documents separated by '...' or a bare '---', with keep_tags off and on. Oracle: a per-document handle table (defaults, or the previous table when keep_tags is set; all directives of a document in force together; a handle repeated within a document and an undeclared named handle are errors); the tag reported for each root node, as the string handle+suffix, equals prefix + percent-decoded suffix. Non-trivial: every stream; distinct: distinct (directive sets, spellings, node kinds, separators, keep_tags).".into();
+    rep.rule = "abstract values: documents = (sequence of 0-3 %TAG directives over handles {!, !!, !e!, !f!} x prefixes {!loc-, tag:x.org,2000:, tag:y/}, optional %YAML 1.2 at any position among them, one of 15 tag spellings (none, '!', local, secondary, named handles, percent-encoded suffixes incl. multi-byte UTF-8, verbatim tags) on a scalar / block sequence / flow mapping); streams of 1, 2 and (thorough) 3 documents separated by '...' or a bare '---', with keep_tags off and on. Oracle: a per-document handle table (defaults, or the previous table when keep_tags is set; all directives of a document in force together; a handle repeated within a document and an undeclared named handle are errors); the tag reported for each root node, as the string handle+suffix, equals prefix + percent-decoded suffix. Non-trivial: every stream; distinct: distinct (directive sets, spellings, node kinds, separators, keep_tags).".into();
     rep.assumptions = vec!["prefixes contain no '%' (the statement speaks of decoding the suffix only)".into(), "with keep_tags, a later document may re-declare a handle kept from an earlier document".into()];
     let budget = Budget::new(wall_cap(tier));
     rep.mandatory_scopes = 2;
@@ -323,7 +327,7 @@ pub fn check(tier: Tier) -> i32 {
         for byte in c.encode_utf8(&mut buf).bytes() {
             enc.push_str(&format!("%{byte:02X}"));
         }
-        for (text, want) in [(format!("--- !<tag:{enc}x> a\n"), format!("tag:{c}x")), (format!("%TAG !e! tag:e:\n--- !e!{enc} a\n"), format!("tag:e:{c}")), (format!("--- !a{}z a\n", enc.to_lowercase()), format!("!a{c}z"))] {
+        for (text, want) in [(format!("--- !<tag:{enc}x> a\n"), format!("tag:{c}x")), (format!("%TAG !e! tag:e:\n--- !e!{enc} a\n"), format!("tag:e:{c}")), (format!("--- !a{}z a\n", enc.to_lowercase()), format!("!a{c}z")), (format!("--- !!x{enc}y a\n"), format!("tag:yaml.org,2002:x{c}y"))] {
             acc.evals += 1;
             let got = match observe(&text, Backend::Str, Api::Iter) {
                 Err(m) => Err(format!("panic: {m}")),
